@@ -946,7 +946,9 @@ class PseudoNetCDFFile(PseudoNetCDFSelfReg, object):
             varneworder = [dk for dk in neworder if dk in vv.dimensions]
             varorder = [dk for dk in vv.dimensions]
             if len(varneworder) > 0:
-                newvals = vv[:].copy()
+                # (the variable of outf: for a disk-backed file vv[:] is a
+                # bare array that carries no attributes)
+                newvals = outf.variables[vk][:].copy()
                 for newdi, newdk in enumerate(varneworder):
                     axisidx = varorder.index(newdk)
                     if axisidx == newdi:
